@@ -123,6 +123,15 @@ def quiescent_findings(h):
                     if c.inbound_spi.hex() not in taint and c.outbound_spi.hex() not in taint)
         if ca != cb:
             out.append(('child-sas-differ', 'CHILD_SAs differ at quiescence: A %s, B %s' % (ca, cb)))
+    # "the same CHILD_SAs" is more than the same SPIs: an IPsec SA that both kernels hold (one as outbound, one as inbound) must carry
+    # the same algorithms and keys at both ends
+    for key in sorted(set(w.A.kernel.sad) & set(w.B.kernel.sad)):
+        ra, rb = w.A.kernel.sad[key], w.B.kernel.sad[key]
+        if ra.get('algs') != rb.get('algs'):
+            names = sorted(k for k in set(ra['algs']) | set(rb['algs']) if ra['algs'].get(k) != rb['algs'].get(k))
+            out.append(('child-sa-keys-differ', 'the IPsec SA %s / SPI %s is installed at both ends with different %s' % (
+                key[0], bytes(key[2]).hex(), 'algorithms or keys (attributes %s)' % names)))
+            break
     leftovers = [(ep.name, s.state.name) for ep in (w.A, w.B) for s in ep.sas() if int(s.state) in (20, 21)]
     if leftovers:
         out.append(('closing-ike-sa-left', 'IKE_SAs in a closing state remain: %s' % leftovers))
@@ -133,6 +142,9 @@ ORACLES = [CP.o_no_escape, o_allowed_steps, o_collision_answers, CP.o_sad_equals
 CONF = {'dpd': 50, 'ike_lifetime': 400, 'child_lifetime': 1000}
 # the initiator prefers a DH group the responder does not have: IKE_SA_INIT and every IKE_SA rekey go through an INVALID_KE_PAYLOAD retry
 CONF_KE = {'dpd': 50, 'ike_lifetime': 400, 'child_lifetime': 1000, 'dh': ['20', '19'], 'dh_b': ['19']}
+# CHILD_SAs with a Diffie-Hellman exchange of their own (PFS), same and opposite preference orders: every CREATE_CHILD_SA carries a KE payload
+CONF_PFS = {'dpd': 50, 'ike_lifetime': 400, 'child_lifetime': 1000, 'child_dh': ['19']}
+CONF_PFS2 = {'dpd': 50, 'ike_lifetime': 400, 'child_lifetime': 1000, 'child_dh': ['20', '19'], 'child_dh_b': ['19', '20']}
 
 
 def apply_trigger(h, ep, trig):
@@ -332,6 +344,14 @@ def run(ctx):
             for e2 in 'AB':
                 run_trace(ctx, res, 1357, [('t', e, 'rekey-ike')] + [('d', 0)] * 8 + [('t', e2, t2)], conf=CONF_KE)
                 n_exh += 1
+    # crossing CHILD_SA exchanges with PFS: every pair of triggers, one at each end, before anything is delivered; then every delivery order
+    # of the first four datagrams
+    for conf in (CONF_PFS, CONF_PFS2):
+        for t1 in ('acquire', 'expire-soft', 'expire-hard'):
+            for t2 in ('acquire', 'expire-soft', 'expire-hard'):
+                for order in ((0, 0, 0, 0), (1, 0, 0, 0), (0, 1, 0, 0), (1, 1, 0, 0), (1, 0, 1, 0)):
+                    run_trace(ctx, res, 8642, [('t', 'A', t1), ('t', 'B', t2)] + [('d', k) for k in order], conf=conf)
+                    n_exh += 1
     res.extra['exhaustive_depth'] = depth
     res.extra['exhaustive_traces'] = n_exh
     res.extra['traces_validated_against_impl'] = n_exh
@@ -349,7 +369,7 @@ def run(ctx):
                 trace.append(('x', rng.randrange(3)))
             else:
                 trace.append(('u', rng.randrange(3)))
-        run_trace(ctx, res, rng.randrange(1 << 30), trace, tracer=(k % 10 == 0), conf=CONF_KE if k % 4 == 3 else CONF)
+        run_trace(ctx, res, rng.randrange(1 << 30), trace, tracer=(k % 10 == 0), conf=(CONF, CONF_PFS, CONF_PFS2, CONF_KE)[k % 4])
     res.extra['random_walks'] = walks
     res.sample({'trace': [list(map(str, s)) for s in trace]})
     coincide_campaign(ctx, res, deep=True)
